@@ -94,7 +94,9 @@ theorem decRef_encRef (E D : Bytes → Bytes) (h : BlockInv E D) (n : Nat) (prev
     (hprev : prev.length = 16) (hp : p.length = 16 * n) :
     decRef D n prev (encRef E n prev p) = p := by
   induction n generalizing prev p with
-  | zero => simp [decRef]; exact (List.length_eq_zero_iff.mp (by omega)).symm
+  | zero =>
+    have : p = [] := List.length_eq_zero_iff.mp (by omega)
+    simp [decRef, this]
   | succ n ih =>
     have ht : (p.take 16).length = 16 := by simp only [List.length_take]; omega
     have hx : (xorBytes (p.take 16) prev).length = 16 := by rw [xor_length]; omega
